@@ -77,14 +77,49 @@ def gen_world(rng: Rng) -> dict:
             while sum(len(p_) for p_ in parts) < rng.choice([8500, 9500, 12000]):
                 parts.append(rng.choice(corpus("ansi")).rstrip("\n") + "\n;\n\n")
             text = "".join(parts).rstrip("\n;") + "\n"
+        jinja_tags: list[str] = []
+        if rng.chance(0.35) and not long_file:
+            # templated file (jinja is the default templater): template tags, comments and expressions
+            # are source-only text that no fix may touch; the SQL around them carries the violations
+            variant = rng.choice(["for", "if", "set", "comment", "trim", "for_ws", "for_ws", "for_ws"])
+            if variant == "for":
+                jinja_tags = ["{% for c in ['a', 'b'] %}", "{{ c }},", "{% endfor %}"]
+                block = "SELECT\n    {% for c in ['a', 'b'] %}\n        {{ c }},\n    {% endfor %}\n    z\nFROM tbl\n"
+            elif variant == "for_ws":
+                # a loop rendered several times whose body holds source-only tags followed by trailing
+                # whitespace: the same source position is patched once per iteration, in templated order
+                inner = rng.choice(["{# one column per entry #}", "{% if true %}{% endif %}", "{% set unused = 1 %}"])
+                ws = rng.choice(["  ", " ", "\t"])
+                jinja_tags = ["{% for c in ['a', 'b', 'd'] %}", inner, "{{ c }},", "{% endfor %}"]
+                block = "SELECT\n    {% for c in ['a', 'b', 'd'] %}\n        " + inner + ws + "\n        {{ c }},\n    {% endfor %}\n    z\nFROM tbl\n"
+            elif variant == "if":
+                jinja_tags = ["{% if true %}", "{% else %}", "{% endif %}"]
+                block = "SELECT a\nFROM tbl\n{% if true %}\n    WHERE a > 1\n{% else %}\n    WHERE a < 1\n{% endif %}\n"
+            elif variant == "set":
+                jinja_tags = ["{% set colname = 'a' %}", "{{ colname }}"]
+                block = "{% set colname = 'a' %}\nSELECT {{ colname }}\nFROM tbl\n"
+            elif variant == "comment":
+                jinja_tags = ["{# keep this note #}", "{{ 1 + 1 }}"]
+                block = "{# keep this note #}\nSELECT {{ 1 + 1 }} AS two\nFROM tbl\n"
+            else:
+                jinja_tags = ["{%- if true -%}", "{%- endif %}"]
+                block = "SELECT a\nFROM tbl\n{%- if true -%}\n    WHERE a > 1\n{%- endif %}\n"
+        else:
+            block = None
         ninj = rng.choice([0, 1, 2, 3])
         inj = []
         for _ in range(ninj):
             nm = rng.choice(sorted(FIXABLE))
+            if block is not None and nm in ("no_final_newline", "extra_final_newlines"):
+                continue
             t2 = FIXABLE[nm](rng, text)
             if t2 and t2 != text:
                 text = t2
                 inj.append(nm)
+        if block is not None:
+            # the templated block goes last and stays as generated: its own violations (if any) are then
+            # the last patches of the file in source order
+            text = text.rstrip("\n") + "\n;\n\n" + block
         k = rng.choice([0, 1, 1, 2, 3]) if file_enc in BAD else 0
         marks = []
         pieces = []
@@ -156,13 +191,15 @@ def gen_world(rng: Rng) -> dict:
                 protected.append(enc_tok("-- note ab%scd" % tok))
             else:
                 protected.append(enc_tok("/* block %s comment */" % tok))
+        for jt in jinja_tags:
+            protected.append(enc_tok(jt))
         if any(m[2] == "head_comment" for m in marks):
             protected[0] = enc_tok(head)
         for tok, bad, where in marks:
             data = data.replace(tok.encode("ascii"), bad)
             protected = [p.replace(tok.encode("ascii"), bad) for p in protected]
         files["proj/" + name] = {"b64": b64(data), "mode": rng.choice([0o644, 0o600, 0o664])}
-        meta["proj/" + name] = {"file_enc": file_enc, "newline": nl, "inj": inj, "exotic": [repr(t) for k_, t in pieces if k_ in ("xstring", "xcomment")], "corrupt": [[m[1].hex(), m[2]] for m in marks],
+        meta["proj/" + name] = {"file_enc": file_enc, "newline": nl, "inj": inj, "jinja": jinja_tags, "exotic": [repr(t) for k_, t in pieces if k_ in ("xstring", "xcomment")], "corrupt": [[m[1].hex(), m[2]] for m in marks],
                                 "protected": [b64(p) for p in protected], "bad": [m[1].hex() for m in marks], "long": long_file}
     core: dict[str, Any] = {"dialect": "ansi"}
     if enc_cfg != "autodetect":
